@@ -160,6 +160,7 @@ theorem named_models_preserve_inv (name : String) (ps : List Nat) (g : Fn)
   unfold lookupBase at h
   split at h <;> first
     | (cases h; exact concatF_inv)
+    | (cases h; exact addF_inv)
     | (cases h; exact repeatF_inv _)
     | (cases h; exact sliceF_inv _ _)
     | (cases h; exact elemF_inv _)
